@@ -186,6 +186,68 @@ var inversePairs = map[string]string{
 	"github.com/tendermint/tendermint/libs/bytes.HexBytes.String": "encoding/hex.DecodeString",
 }
 
+// exportAccum is one collection filled during export: its type, the family whose whole-family scan
+// fills it and, for maps, the operation that encodes the key.
+type exportAccum struct {
+	typ, fam, enc, name string
+}
+
+// exportAccumulators finds the functions (closures, named functions, bound methods) that the export
+// hands to whole-family scans, and what they accumulate — local collections or fields of a collector.
+func (c *Check) exportAccumulators(exp *Func) []exportAccum {
+	var out []exportAccum
+	seen := map[string]bool{}
+	for _, pa := range c.P.PathsOf(exp) {
+		for _, ev := range pa.Events {
+			if ev.Kind != EvCall || ev.CI.fn == nil {
+				continue
+			}
+			fam := ""
+			for _, e := range c.P.SummaryOf(ev.CI.fn).Effs {
+				if e.Kind == "store" && e.Op == "Iter" && len(e.Chain) <= 1 {
+					if _, bare := c.P.keys().Prefixes[e.Builder]; bare {
+						fam = e.Family
+					}
+				}
+			}
+			for _, a := range ev.CI.args {
+				if !a.Is("func") || len(a.A) < 1 {
+					continue
+				}
+				cl := c.P.FuncNamed(a.A[0].At)
+				if cl == nil {
+					continue
+				}
+				for _, pb := range c.P.PathsOf(cl) {
+					for _, e2 := range pb.Events {
+						if (e2.Kind != EvAssign && e2.Kind != EvWrite) || e2.Val == nil || (e2.Val.Op != "append" && e2.Val.Op != "upd") {
+							continue
+						}
+						acc := exportAccum{fam: fam}
+						switch {
+						case e2.Kind == EvAssign && e2.Var != nil:
+							acc.typ, acc.name = e2.Var.Type().String(), e2.Var.Name()
+						case e2.Val.Typ != nil:
+							acc.typ, acc.name = e2.Val.Typ.String(), e2.Field
+						case e2.Old != nil && e2.Old.Typ != nil:
+							acc.typ, acc.name = e2.Old.Typ.String(), e2.Field
+						}
+						if e2.Val.Op == "upd" && len(e2.Val.A) == 3 {
+							acc.enc = e2.Val.A[1].Op
+						}
+						k := acc.typ + "|" + acc.fam + "|" + acc.enc + "|" + acc.name
+						if !seen[k] {
+							seen[k] = true
+							out = append(out, acc)
+						}
+					}
+				}
+			}
+		}
+	}
+	return out
+}
+
 // genesisCodecs: per genesis map, export key encoder / import decoder / validation decoder.
 func (c *Check) genesisCodecs(rule string) {
 	exp := c.mustFn(rule, "service.ExportGenesis")
@@ -214,23 +276,17 @@ func (c *Check) genesisCodecs(rule string) {
 			}
 		}
 	}
-	for _, f := range c.P.Funcs {
-		if f.Parent == nil || c.P.inlineHost(f.root()) != exp {
+	for _, acc := range c.exportAccumulators(exp) {
+		if acc.enc == "" {
 			continue
 		}
-		for _, pa := range c.P.PathsOf(f) {
-			for _, ev := range pa.Events {
-				if ev.Kind == EvAssign && ev.Val != nil && ev.Val.Op == "upd" && len(ev.Val.A) == 3 && ev.Var != nil {
-					if fld := mapFields[ev.Var.Type().String()]; fld != "" {
-						enc[fld] = ev.Val.A[1].Op
-						continue
-					}
-					for fld, v := range ctorArgs {
-						if v == ev.Var.Name() {
-							enc[fld] = ev.Val.A[1].Op
-						}
-					}
-				}
+		if fld := mapFields[acc.typ]; fld != "" {
+			enc[fld] = acc.enc
+			continue
+		}
+		for fld, v := range ctorArgs {
+			if v == acc.name {
+				enc[fld] = acc.enc
 			}
 		}
 	}
@@ -456,35 +512,20 @@ func (c *Check) genesisCoverage(rule string) {
 	for i := 0; i < st.NumFields(); i++ {
 		fields = append(fields, st.Field(i).Name())
 	}
-	// collection variable -> family iterated by the closure that fills it
+	// collection (by type, else by name) -> family iterated by the function that fills it
 	famOf := map[string]string{}
-	for _, pa := range c.P.PathsOf(exp) {
-		for _, ev := range pa.Events {
-			if ev.Kind != EvCall || ev.CI.fn == nil {
-				continue
-			}
-			var fam string
-			for _, e := range c.P.SummaryOf(ev.CI.fn).Effs {
-				if e.Kind == "store" && e.Op == "Iter" && len(e.Chain) == 0 {
-					if _, bare := c.P.keys().Prefixes[e.Builder]; bare {
-						fam = e.Family
-					}
-				}
-			}
-			for _, a := range ev.CI.args {
-				if a.Is("func") {
-					if cl := c.P.FuncNamed(a.A[0].At); cl != nil {
-						for _, pb := range c.P.PathsOf(cl) {
-							for _, e2 := range pb.Events {
-								if e2.Kind == EvAssign && e2.Var != nil && e2.Val != nil && (e2.Val.Op == "append" || e2.Val.Op == "upd") {
-									famOf[e2.Var.Name()] = fam
-								}
-							}
-						}
-					}
-				}
-			}
+	famOfType := map[string]string{}
+	for _, acc := range c.exportAccumulators(exp) {
+		famOf[acc.name] = acc.fam
+		if old, dup := famOfType[acc.typ]; dup && old != acc.fam {
+			famOfType[acc.typ] = "ambiguous"
+		} else {
+			famOfType[acc.typ] = acc.fam
 		}
+	}
+	fieldType := map[string]string{}
+	for i := 0; i < st.NumFields(); i++ {
+		fieldType[st.Field(i).Name()] = st.Field(i).Type().String()
 	}
 	want := map[string]string{"Definitions": "0x01", "Bindings": "0x02", "WithdrawAddresses": "0x07", "RequestContexts": "0x08"}
 	for _, f := range fields {
@@ -497,8 +538,12 @@ func (c *Check) genesisCoverage(rule string) {
 			c.fail(rule, "GenesisState."+f+"#export", exp.Body.Pos(), "genesis field without an export rule")
 			continue
 		}
-		c.req(famOf[args[f]] == w, rule, "GenesisState."+f+"#export", exp.Body.Pos(),
-			fmt.Sprintf("exported from the whole-family iteration of %s into the constructor position of the same field (collection %q iterates %s)", w, args[f], famOf[args[f]]))
+		got := famOf[args[f]]
+		if got == "" {
+			got = famOfType[fieldType[f]]
+		}
+		c.req(got == w, rule, "GenesisState."+f+"#export", exp.Body.Pos(),
+			fmt.Sprintf("exported from the whole-family iteration of %s into the constructor position of the same field (collection %q iterates %s)", w, args[f], got))
 	}
 	// Params: ParamSetPairs, NewParams, GetParams agree on the number of fields
 	pobj := c.P.ByPkg[pkgTypes].Types.Scope().Lookup("Params")
